@@ -165,10 +165,13 @@ def run_search_check(pid, tier, obligations, prefixes, functions, bounds, outsid
         pool = concurrent.futures.ThreadPoolExecutor(A.NPROC)
         for ob in obligations:
             every = record_every or (1 if tier == 'thorough' else 1)
-            r = A.run_obligation(ba, ob.name, ob.spec(checks, records_for_validation, every), max_seconds=ob.max_seconds, pool=pool)
+            r = A.run_obligation(ba, ob.name, ob.spec(checks, records_for_validation, every), max_seconds=ob.max_seconds, pool=pool, dump_every=(97 if tier == 'quick' else 41))
             r['ob'] = ob
             results.append(r)
         pool.shutdown()
+        xc = A.cross_check(ba, limit=(24 if tier == 'quick' else 120))
+        if xc['disagreements']:
+            harness_errors.append('second-solver disagreement on %d dumped path queries: %r' % (len(xc['disagreements']), xc['disagreements'][:2]))
         # ---- replay counterexamples of this property on the native build (real float, real finalizer)
         cex = []
         for r in results:
@@ -298,7 +301,7 @@ def run_search_check(pid, tier, obligations, prefixes, functions, bounds, outsid
                per_obligation=[dict(name=r['name'], paths=r['paths'], queries=r['queries'], solver_s=r['solver_s'], wall_s=r['wall_s'], exhaustive=r['exhaustive'],
                                     kinds={k: v for k, v in r['kinds'].items()}) for r in results],
                samples=sample_records or [dict(obligation=r['name']) for r in results[:3]],
-               known_findings_hit={k: len(v) for k, v in known_hits.items()}, harness_errors=harness_errors[:20],
+               second_solver_cross_check=xc, known_findings_hit={k: len(v) for k, v in known_hits.items()}, harness_errors=harness_errors[:20],
                other_property_kinds_seen=sorted({k for r in results for k in r['kinds'] if not k.startswith(tuple(prefixes))}),
                engine='Engine A (parsing.h compiled with float := symbolic linear scalar, libz3 4.8.12) + Engine N (native float build, translated parsing.pyx)')
     ev = dict(property_id=pid, tier=tier, seed=seed, level='model_checking', coverage=cov, assumptions=assumptions, wall_s=round(time.time() - t0, 2), violations=len(vio_lines))
